@@ -18,7 +18,7 @@
 #define NCFG 768
 typedef struct {
     int bs_convert, lower, nul_enc_term, nul_raw_term, compress, sep_decode, u_decode, bestfit, invalid;
-    htp_cfg_t *cfg; htp_connp_t *connp; htp_tx_t *tx;
+    htp_cfg_t *cfg, *decoy; htp_connp_t *connp; htp_tx_t *tx;
 } lcfg;
 static lcfg L[NCFG];
 
@@ -356,8 +356,27 @@ int main(int argc, char **argv) {
         htp_config_set_u_encoding_decode(c->cfg, x, c->u_decode);
         htp_config_set_utf8_convert_bestfit(c->cfg, x, c->bestfit);
         htp_config_set_url_encoding_invalid_handling(c->cfg, x, (enum htp_url_encoding_handling_t) c->invalid);
-        c->connp = htp_connp_create(c->cfg);
-        c->tx = htp_connp_tx_create(c->connp);
+        if (__builtin_popcount((unsigned) ci) & 1) {
+            /* half of the configurations are not the connection's but the transaction's own (htp_tx_set_config), on a connection
+             * configured the opposite way in every switch: the path is decoded per the transaction's configuration */
+            htp_cfg_t *decoy = htp_config_create();
+            htp_config_set_backslash_convert_slashes(decoy, x, !c->bs_convert);
+            htp_config_set_convert_lowercase(decoy, x, !c->lower);
+            htp_config_set_nul_encoded_terminates(decoy, x, !c->nul_enc_term);
+            htp_config_set_nul_raw_terminates(decoy, x, !c->nul_raw_term);
+            htp_config_set_path_separators_compress(decoy, x, !c->compress);
+            htp_config_set_path_separators_decode(decoy, x, !c->sep_decode);
+            htp_config_set_u_encoding_decode(decoy, x, !c->u_decode);
+            htp_config_set_utf8_convert_bestfit(decoy, x, !c->bestfit);
+            htp_config_set_url_encoding_invalid_handling(decoy, x, (enum htp_url_encoding_handling_t) ((c->invalid + 1) % 3));
+            c->decoy = decoy;
+            c->connp = htp_connp_create(decoy);
+            c->tx = htp_connp_tx_create(c->connp);
+            htp_tx_set_config(c->tx, c->cfg, HTP_CONFIG_SHARED);
+        } else {
+            c->connp = htp_connp_create(c->cfg);
+            c->tx = htp_connp_tx_create(c->connp);
+        }
     }
     hx_buf samples = { 0 };
     uint64_t per[6];
@@ -388,7 +407,7 @@ int main(int argc, char **argv) {
            (unsigned long long) per[4], (unsigned long long) per[5], (unsigned long long) nrandom, (unsigned long long) n_viol, (unsigned long long) n_dotseg_removed,
            (unsigned long long) n_flagged[0], (unsigned long long) n_flagged[1], (unsigned long long) n_flagged[2], (unsigned long long) n_flagged[4], (unsigned long long) n_flagged[5],
            (unsigned long long) n_flagged[6], (unsigned long long) n_flagged[7], (unsigned long long) n_flagged[8], (unsigned long long) n_flagged[9], samples.p ? samples.p : "");
-    for (int ci = 0; ci < NCFG; ci++) { htp_connp_destroy_all(L[ci].connp); htp_config_destroy(L[ci].cfg); }
+    for (int ci = 0; ci < NCFG; ci++) { htp_connp_destroy_all(L[ci].connp); htp_config_destroy(L[ci].cfg); if (L[ci].decoy) htp_config_destroy(L[ci].decoy); }
     hb_free(&samples);
     fflush(stdout);
     return 0;
